@@ -291,6 +291,11 @@ def gen_world(rnd, valid_only=None):
 
     for _ in range(rnd.randint(1, 5)):
         add_file("%s/%s.capy" % (rnd.choice(dirs), rnd.choice(names)))
+    if layout != "nested" and len(dirs) >= 3 and rnd.random() < 0.6:
+        # the same file name in both of the confusable directories
+        nm = rnd.choice(names)
+        add_file("%s/%s.capy" % (dirs[1], nm))
+        add_file("%s/%s.capy" % (dirs[2], nm))
     if layout == "nested" and rnd.random() < 0.15:
         add_file("%s/.capy" % rnd.choice(dirs))     # a file whose whole name is the suffix
     spec = {"files": files, "dirs": list(dirs) + [MODS + "/core", OUT], "raw": {}, "chains": [],
